@@ -5,6 +5,7 @@ package cli
 
 import (
 	"bufio"
+	"errors"
 	"fmt"
 	"io"
 	"os"
@@ -99,6 +100,9 @@ func (rt *Platform) Cls() {
 // Read reads a line of input from stdin and strips trailing newline.
 func (rt *Platform) Read() string {
 	s, err := rt.reader.ReadString('\n')
+	if errors.Is(err, io.EOF) {
+		return s // last line without trailing newline, or "" at the end of the input
+	}
 	if err != nil {
 		panic(err)
 	}
